@@ -149,7 +149,8 @@ var walkZones = []string{
 }
 
 var sweepZones = []string{"Australia/Lord_Howe", "Pacific/Chatham", "America/St_Johns", "Asia/Tehran", "Asia/Beirut", "Africa/Cairo",
-	"America/Sao_Paulo", "America/Asuncion", "America/Santiago", "America/Havana", "Pacific/Apia"}
+	"America/Sao_Paulo", "America/Asuncion", "America/Santiago", "America/Havana", "Pacific/Apia",
+	"Asia/Amman", "Asia/Damascus", "America/Campo_Grande", "America/Cuiaba"}
 
 // zoneNames: every zone (used for the Location instants are carried in and for time.Local).
 var zoneNames = append(append([]string{}, walkZones...), sweepZones...)
